@@ -412,6 +412,11 @@ func (s *sim) blockComplete(pe *peer.Peer, corrupt bool) {
 	}
 	p.Writing = true
 	s.writing = p
+	for _, w := range s.ws {
+		if dl := w.src.Downloader; dl != nil && w.live && d.idx > dl.ReadCurrent() && d.idx < dl.End {
+			s.fpKinds["peer-completes-piece-inside-web-range"] = true
+		}
+	}
 	if corrupt {
 		s.writingSrc = pcorrupt{pe}
 	} else {
@@ -561,6 +566,8 @@ func runHistory(k int) (fp string, viol []string, lg []string, desc string) {
 	np := 1 + r.Intn(40)
 	if r.Intn(4) == 0 {
 		np = 1 + r.Intn(6)
+	} else if k%6 == 5 {
+		np = 40 + r.Intn(120) // web seed ranges are 5 % of the pieces: only here do they span several pieces
 	}
 	// layout: a few files so that sequential mode has several file edges
 	l := &gen.Layout{Name: "p", PieceLen: 16384, Seed: int64(k)}
@@ -666,7 +673,7 @@ func runHistory(k int) (fp string, viol []string, lg []string, desc string) {
 		}
 	}()
 	nops := 10 + r.Intn(70)
-	s.wsHold = len(s.ws) > 0 && r.Intn(3) == 0 // web seeds that become usable only later (retry after an error)
+	s.wsHold = len(s.ws) > 0 && (r.Intn(3) == 0 || np >= 40) // web seeds that become usable only later (retry after an error)
 	pt, ok := vx.Try(func() {
 		s.startAll()
 		s.check()
@@ -790,6 +797,9 @@ func runHistory(k int) (fp string, viol []string, lg []string, desc string) {
 	run.Count("picks", int64(s.picks))
 	for _, kk := range kinds {
 		run.Count("hist_with_"+kk, 1)
+	}
+	if os.Getenv("VX_DEBUG_C09") != "" && s.fpKinds["web-range-over-requested-piece"] && k%200 == 0 {
+		fmt.Fprintf(os.Stderr, "DEBUG history %d: %s\n", k, strings.Join(s.log, " ; "))
 	}
 	if s.picks > 0 {
 		fp = vx.Hash(strings.Join(s.log, ";"))
